@@ -197,10 +197,12 @@ def join_with_limit(  # noqa: PLR0911
 
 def error_context(text: str, index: int) -> tuple[str, int, int]:
     """Return a (line, lineno, col) tuple for position `index` in `text`."""
-    if not text:
-        return ("", 1, 0)
-
     lines = text.splitlines(keepends=True)
+    if not lines or lines[-1] != text.splitlines()[-1]:
+        # The text is empty or ends with a line break, so the end of the text
+        # is on a new, empty line.
+        lines.append("")
+
     cumulative_length = 0
     target_line_index = len(lines) - 1
 
